@@ -96,7 +96,7 @@ func C11(c *core.Ctx) {
 	nCalls := 0
 	siteFn := map[*ssa.Function]string{}
 	for _, e := range emissionSites {
-		if fn := p.SSAFn(p.Method(pkgPfcp, "PfcpServer", e.fn)); fn != nil {
+		if fn, _ := emissionFn(p, e.fn, e.ies); fn != nil {
 			siteFn[fn] = e.ies
 		} else {
 			c.Anchor("R2", "pfcp.PfcpServer."+e.fn)
@@ -499,7 +499,8 @@ func C12(c *core.Ctx) {
 	}
 
 	// R3 same response
-	if fn := fnOf(c, "R3", pkgPfcp, "PfcpServer", "handleSessionModificationRequest"); fn != nil {
+	if hfn := fnOf(c, "R3", pkgPfcp, "PfcpServer", "handleSessionModificationRequest"); hfn != nil {
+		fn, env := emissionFn(p, "handleSessionModificationRequest", "IEsWithinSessModRsp")
 		// range operand of the emission loop: the slice indexed where r is loaded for URRSeq
 		var emitted ssa.Value
 		for _, ci := range core.Calls(fn, p.Method(pkgPfcp, "Sess", "URRSeq")) {
@@ -519,6 +520,9 @@ func C12(c *core.Ctx) {
 					}
 				}
 			}
+		}
+		if par, isPar := emitted.(*ssa.Parameter); isPar && env != nil {
+			emitted = env[par] // the loop lives in a helper: continue with the handler's argument
 		}
 		if emitted == nil {
 			c.Undecided("R3", "emission-source", fn.Pos(), "cannot find the slice the emission loop ranges over")
@@ -561,15 +565,14 @@ func C12(c *core.Ctx) {
 	if disFn != nil {
 		for _, ci := range core.CallsMatching(disFn, func(f *types.Func) bool { return f.Name() == "QueryURR" }) {
 			atZero := false
-			for _, ft := range core.FactsAt(ci.(ssa.Instruction).Block()) {
-				if cmp, ok := ft.V.(*ssa.BinOp); ok && cmp.Op == token.EQL && ft.True {
-					if k, ok := core.ConstInt(cmp.Y); ok && k == 0 {
-						if _, f, ok := core.LoadedField(cmp.X); ok && f == refF {
-							// the compared load comes after the decrement
-							for _, r := range byFn[disFn] {
-								if !r.inc && core.InstrDominates(r.st, cmp) {
-									atZero = true
-								}
+			for _, eq := range eqFacts(ci.(ssa.Instruction).Block()) {
+				if k, ok := core.ConstInt(eq[1]); ok && k == 0 {
+					if _, f, ok := core.LoadedField(eq[0]); ok && f == refF {
+						// the compared load comes after the decrement
+						ld, _ := eq[0].(ssa.Instruction)
+						for _, r := range byFn[disFn] {
+							if !r.inc && ld != nil && core.InstrDominates(r.st, ld) {
+								atZero = true
 							}
 						}
 					}
@@ -717,6 +720,66 @@ func checkMarkLoop(c *core.Ctx, fn *ssa.Function, mark int64, name string) {
 			markSt = st
 		}
 	})
+	// ... or the marking is done by an own helper `mark(list, flags)` whose body is that loop over its slice
+	// parameter OR-ing its flags parameter: then the call (with the driver's list and the constant) is the marker
+	var markCall ssa.Instruction
+	core.Instrs(fn, func(in ssa.Instruction) {
+		cl, ok := in.(*ssa.Call)
+		if !ok || cl.Call.IsInvoke() {
+			return
+		}
+		h := core.StaticFn(cl)
+		if h == nil || h.Blocks == nil || !c.P.IsOwnFn(h) || h.Signature.Results().Len() != 0 {
+			return
+		}
+		li, fi := -1, -1
+		core.Instrs(h, func(hin ssa.Instruction) {
+			st, ok := hin.(*ssa.Store)
+			if !ok {
+				return
+			}
+			or, ok := st.Val.(*ssa.BinOp)
+			if !ok || or.Op != token.OR {
+				return
+			}
+			fp, isP := or.Y.(*ssa.Parameter)
+			if !isP {
+				return
+			}
+			a := st.Addr
+			for i := 0; i < 4; i++ {
+				if fa, ok := a.(*ssa.FieldAddr); ok {
+					a = fa.X
+				}
+			}
+			ia, ok := a.(*ssa.IndexAddr)
+			if !ok {
+				return
+			}
+			lp, isP2 := ia.X.(*ssa.Parameter)
+			if !isP2 || !inAnyLoop(st) {
+				return
+			}
+			// the store writes back the very field it read (x |= flags)
+			if ld, ok := or.X.(*ssa.UnOp); !ok || !sameAddr(ld.X, st.Addr) {
+				return
+			}
+			for i, pp := range h.Params {
+				if pp == lp {
+					li = i
+				}
+				if pp == fp {
+					fi = i
+				}
+			}
+		})
+		if li < 0 || fi < 0 || li >= len(cl.Call.Args) || fi >= len(cl.Call.Args) {
+			return
+		}
+		if k, ok := core.ConstInt(cl.Call.Args[fi]); ok && k == mark && cl.Call.Args[li] == reports {
+			markCall = cl
+		}
+	})
 	n := 0
 	core.Instrs(fn, func(in ssa.Instruction) {
 		r, ok := in.(*ssa.Return)
@@ -731,6 +794,9 @@ func checkMarkLoop(c *core.Ctx, fn *ssa.Function, mark int64, name string) {
 		if okRet {
 			// the loop (header of the mark store) lies on every path from the driver call to this return
 			okRet = loopHeaderOf(markSt).Dominates(r.Block()) && core.InstrDominates(drv, markSt)
+		}
+		if !okRet && r.Results[0] == reports && markCall != nil {
+			okRet = core.InstrDominates(markCall, r) && core.InstrDominates(drv, markCall)
 		}
 		c.Check("R2", fmt.Sprintf("mark:%s:%s#%d", fn.Name(), name, n), r.Pos(), okRet,
 			"the reports returned are the driver's, each OR-ed with "+name+" by a loop that every path to this return passes")
@@ -766,4 +832,70 @@ func inNaturalLoop(b, hdr *ssa.BasicBlock) bool {
 		}
 	}
 	return false
+}
+
+// sameAddr: two address computations denote the same location (go/ssa does not share them):
+// the same value, or field/index addresses of the same field/index over the same base.
+func sameAddr(a, b ssa.Value) bool {
+	if a == b {
+		return true
+	}
+	switch x := a.(type) {
+	case *ssa.FieldAddr:
+		y, ok := b.(*ssa.FieldAddr)
+		return ok && x.Field == y.Field && sameAddr(x.X, y.X)
+	case *ssa.IndexAddr:
+		y, ok := b.(*ssa.IndexAddr)
+		return ok && x.Index == y.Index && sameAddr(x.X, y.X)
+	}
+	return false
+}
+
+// emissionFn resolves the function holding the emission loop of handler `handler` for the IE builder
+// `ies`: the handler itself, or an own helper that calls the builder and is called from that handler only
+// (a long handler split into functions). env maps the helper's parameters to the handler's arguments.
+func emissionFn(p *core.Program, handler, ies string) (*ssa.Function, map[*ssa.Parameter]ssa.Value) {
+	h := p.SSAFn(p.Method(pkgPfcp, "PfcpServer", handler))
+	if h == nil {
+		return nil, nil
+	}
+	calls := func(f *ssa.Function) bool {
+		found := false
+		core.Instrs(f, func(in ssa.Instruction) {
+			if cl, ok := in.(*ssa.Call); ok {
+				if g := core.Callee(cl); g != nil && g.Name() == ies {
+					found = true
+				}
+			}
+		})
+		return found
+	}
+	if calls(h) {
+		return h, nil
+	}
+	var helper *ssa.Function
+	var site *ssa.Call
+	core.Instrs(h, func(in ssa.Instruction) {
+		if cl, ok := in.(*ssa.Call); ok && !cl.Call.IsInvoke() {
+			if g := core.StaticFn(cl); g != nil && g.Blocks != nil && p.IsOwnFn(g) && calls(g) {
+				helper, site = g, cl
+			}
+		}
+	})
+	if helper == nil {
+		return h, nil
+	}
+	// called from this handler only
+	for _, e := range p.Callers(helper) {
+		if e.Caller.Func != h {
+			return h, nil
+		}
+	}
+	env := map[*ssa.Parameter]ssa.Value{}
+	for i, par := range helper.Params {
+		if i < len(site.Call.Args) {
+			env[par] = site.Call.Args[i]
+		}
+	}
+	return helper, env
 }
